@@ -273,6 +273,7 @@ package sql
 //@   ensures[kind; C10 C18] err == nil ==> exprKind(result0)
 //@   ensures[atom; C10 C05] err == nil ==> atomKind(result0)
 
+//@ spec pred isCompOp(t TokenType) { t == EQ || t == NEQ || t == LT || t == GT || t == LTE || t == GTE }
 //@ func (p *Parser) ComparisonPredicate() (interface{}, error)
 //@   props C09
 //@   requires PL(p)
@@ -281,6 +282,10 @@ package sql
 //@   decreases pmeasure(p) * 32 + 11
 //@   ensures[kind; C10 C18] err == nil ==> exprKind(result0)
 //@   ensures[atom; C10 C05] err == nil ==> atomKind(result0)
+//@   ensures[cmp.maximal; C10 C05] err == nil && typeof(result0) != typ(ComparisonPredicate) ==> !isCompOp(curTokType(p))
+//@   ensures[cmp.order; C10 C05] err == nil && typeof(result0) == typ(ComparisonPredicate) ==>
+//@              ((typeof(result0.(ComparisonPredicate).LHS) == typ(ColumnReference)) <==> old(curTokType(p)) == IDENT)
+//@   ensures[cmp.op; C10 C05] err == nil && typeof(result0) == typ(ComparisonPredicate) ==> isCompOp(result0.(ComparisonPredicate).CompOp)
 
 //@ func (p *Parser) ValueExpression() (ValueExpression, error)
 //@   props C09
@@ -290,6 +295,8 @@ package sql
 //@   decreases pmeasure(p) * 32 + 10
 //@   ensures[kind; C10 C18] err == nil ==> exprKind(result0)
 //@   ensures[atom; C10 C05] err == nil ==> atomKind(result0)
+//@   ensures[value.kind; C10 C05] err == nil ==> typeof(result0) != typ(ComparisonPredicate) && typeof(result0) != typ(Predicate)
+//@   ensures[value.first; C10 C05] err == nil ==> ((typeof(result0) == typ(ColumnReference)) <==> old(curTokType(p)) == IDENT)
 
 //@ func (p *Parser) ColumnReference() (bool, ColumnReference, error)
 //@   props C09
@@ -299,6 +306,7 @@ package sql
 //@   decreases pmeasure(p) * 32 + 9
 //@   ensures[consumes] result0 ==> p.cur > old(p.cur)
 //@   ensures[notfound.kept; C07 C10] !result0 && err == nil ==> p.cur == old(p.cur)
+//@   ensures[found.first; C10 C05] (result0 ==> old(curTokType(p)) == IDENT) && (!result0 && err == nil ==> old(curTokType(p)) != IDENT)
 
 //@ func (p *Parser) SelectList() (SelectList, error)
 //@   props C09
